@@ -105,7 +105,25 @@ impl Check for C04 {
                 let b = view(entry, step.buf);
                 let v = match parse(entry, step.buf) {
                     Ok(v) => v,
-                    Err(_) => {
+                    Err(desc) => {
+                        if let Some((at, _)) = &first {
+                            // the same header was accepted with fewer bytes after it
+                            local.push(viol(
+                                "C04",
+                                "panic_caused_by_following_bytes",
+                                entry,
+                                b,
+                                crate::recv::panic_site(&desc),
+                                format!(
+                                    "buffer of {} bytes was accepted; with {} bytes {:?} the parser panics: {}",
+                                    at,
+                                    b.len(),
+                                    printable(b, 140),
+                                    desc
+                                ),
+                            ));
+                            return false;
+                        }
                         panicked = true;
                         return false;
                     }
@@ -252,8 +270,20 @@ impl Check for C04 {
                         ext.extend_from_slice(&t);
                         st.oracle_evals += 1;
                         match parse(entry, &ext) {
-                            Err(_) => {
-                                panicked = true;
+                            Err(desc) => {
+                                local.push(viol(
+                                    "C04",
+                                    "panic_caused_by_following_bytes",
+                                    entry,
+                                    &ext,
+                                    crate::recv::panic_site(&desc),
+                                    format!(
+                                        "{:?} is accepted, but followed by {:?} the parser panics: {}",
+                                        printable(&h_owned, 120),
+                                        printable(&t, 40),
+                                        desc
+                                    ),
+                                ));
                                 return false;
                             }
                             Ok(x) => {
